@@ -9,9 +9,12 @@
     is followed by boundary queries (which may fill the caches).
     [observe m d q] is the answer to query [q] of a manager with memory [m] on
     database [d]; [reopen d] is the memory of a manager freshly opened on [d].
-    The queries are: address lookup with account / internal / imported / used,
-    last external / internal address, account properties (name, next external
-    and internal index, imported key count), lookup by name, name by number,
+    Accounts are default (seed-derived) or watch-only (imported xpub with a
+    fingerprint and an optional address-schema override).
+    The queries are: address lookup with account / internal / imported / used /
+    address type / master-key fingerprint, last external / internal address,
+    account properties (name, next external and internal index, imported key
+    count, watch-only kind: key, fingerprint, schema), lookup by name, name by number,
     last account, synced-to, block hash by height, birthday, birthday block.
 
     The pinned code updates memory before commit in several operations, so the
@@ -80,7 +83,7 @@ Theorem C08_index_queries_outside_K_idx : forall rb d0 h a,
              = observe (reopen (disk_of s)) (disk_of s) (QLast a b)) /\
   match observe (mem_of s) (disk_of s) (QProps a),
         observe (reopen (disk_of s)) (disk_of s) (QProps a) with
-  | AProps _ e i _, AProps _ e' i' _ => e = e' /\ i = i'
+  | AProps _ e i _ _, AProps _ e' i' _ _ => e = e' /\ i = i'
   | AErr e, AErr e' => e = e'
   | _, _ => False
   end.
@@ -146,20 +149,26 @@ Print Assumptions C08_dry_run_issuance.
     (issuance, rename, new account, mark-used, sync; aborted: new account,
     mark-used, birthday block, reads): the hypotheses of [C08_outside_K] hold. *)
 Example C08_nonvacuous_outside_K : forall rb,
-  let h := [ {| tx_ops := [ONext 0 false 2; ORename 0 7; ONewAccount 8]; tx_fate := Commit;
-                tx_queries := [QProps 0; QLookup (Chain 0 false 1)] |};
+  let hw := {| w_key := 3; w_fp := 287454020; w_schema := Some (3%N, 4%N) |} in
+  let h := [ {| tx_ops := [ONext 0 false 2; ORename 0 7; ONewAccount 8; ONewAccountWO 10 hw];
+                tx_fate := Commit; tx_queries := [QProps 0; QProps 2; QLookup (Chain 0 false 1)] |};
              {| tx_ops := [ONewAccount 9; OMarkUsed (Chain 0 false 0); OSetBdayBlock stamp1 true];
                 tx_fate := AbortCaller; tx_queries := [QProps 1; QLast 0 false] |};
              {| tx_ops := [ORead (QLookup (Chain 0 false 0)); ORead (QProps 1)]; tx_fate := AbortDryRun;
                 tx_queries := [] |};
-             {| tx_ops := [OExtend 1 true 3; ONext 1 true 1; OSetSynced stamp1; OImport (ImpScript 0) (Some stamp1)];
-                tx_fate := Commit; tx_queries := [QLookup (ImpScript 0)] |};
+             {| tx_ops := [OExtend 1 true 3; ONext 1 true 1; OSetSynced stamp1; OImport (ImpScript 0) (Some stamp1);
+                           ONext 2 false 2; ORename 2 11; OExtend 2 true 9];
+                tx_fate := Commit; tx_queries := [QLookup (ImpScript 0); QLookup (Chain 2 false 1)] |};
              {| tx_ops := [OMarkUsed (Chain 1 true 4)]; tx_fate := CommitFails; tx_queries := [QSynced] |} ] in
   in_K rb h = false /\ times_ok h = true /\
   let s := final rb h (opened d_wit) in
-  observe (mem_of s) (disk_of s) (QProps 1) = AProps 8 0 5 0 /\
-  observe (mem_of s) (disk_of s) (QProps 0) = AProps 7 2 0 0 /\
-  observe (mem_of s) (disk_of s) (QLookup (Chain 1 true 4)) = AAddr (Chain 1 true 4) 1 true false false.
+  observe (mem_of s) (disk_of s) (QProps 1) = AProps 8 0 5 0 None /\
+  observe (mem_of s) (disk_of s) (QProps 0) = AProps 7 2 0 0 None /\
+  (* the imported account: renamed while cached, in a committed transaction *)
+  observe (mem_of s) (disk_of s) (QProps 2) = AProps 11 2 0 0 (Some hw) /\
+  observe (mem_of s) (disk_of s) (QLookup (Chain 2 false 1))
+    = AAddr (Chain 2 false 1) 2 false false false 3 287454020 /\
+  observe (mem_of s) (disk_of s) (QLookup (Chain 1 true 4)) = AAddr (Chain 1 true 4) 1 true false false 4 0.
 Proof. intros []; vm_compute; repeat split. Qed.
 
 (** The scenario the property names, on the source as it is now: dry-run
